@@ -10,7 +10,7 @@ from gen_create import random_callset, random_map, pop_sizes, random_projection
 from fractions import Fraction
 
 TOL = Fraction(1, 10**9)
-RULE = ("catalogue of 12 site classes (two of them with equal ALT counts out of different totals) (complete, complete other counts, partially missing in population A / in B, "
+RULE = ("catalogue of 14 site classes (two of them leave one population without any called genotype) (two of them with equal ALT counts out of different totals) (complete, complete other counts, partially missing in population A / in B, "
         "multiallelic, insufficient for the projection, exactly sufficient, all-missing, monomorphic, a record without a GT key) for 4 samples in 2 "
         "populations: ALL ordered pairs and triples (quick: all pairs + seeded triples) x {no projection, 3 projection "
         "targets} through site::Reader, each record's Site value compared with the model (whose per-record result is proved "
@@ -32,9 +32,11 @@ CLASSES = {
     "mono": ["0/0", "0/0", "0/0", "0/0"],
     "allalt_full": ["1/1", "1/1", "1/1", "0/0"],         # the same ALT counts as the next class ...
     "allalt_miss": ["1/1", "1/1", "1/1", "./."],         # ... out of fewer called chromosomes (counts = totals in B)
+    "missallB": ["0/1", "1/1", ".", "./."],              # population B without any called genotype (A complete)
+    "missallA": ["./.", ".", "1/1", "0/1"],              # ... and population A
     "nogt": ["NOGT", "NOGT", "NOGT", "NOGT"],          # FORMAT without a GT key (rendered as DP only): nobody has a genotype
 }
-PROJS = [None, ("s", [3, 3]), ("s", [5, 1]), ("s", [2, 4])]
+PROJS = [None, ("s", [3, 3]), ("s", [5, 1]), ("s", [2, 4]), ("s", [1, 5]), ("s", [3, 1])]
 
 
 def check(rep, tier, seed):
